@@ -5,7 +5,7 @@
 N=${1:-4}
 cd "$(dirname "$0")/.." || exit 2
 V=$(pwd)
-names=$(ls seeded | grep -E -- '-[mnp][0-9]+$')
+names=$(ls seeded | grep -E -- "${PATTERN:--[mnpq][0-9]+\$}")
 i=0
 for n in $names; do
   lane=$((i % N)); i=$((i + 1))
